@@ -272,12 +272,16 @@ func TestVerifC13Bulk(t *testing.T) {
 	n := vPick(4, 32)
 	vEnum(t, "C13", "c13.bulk",
 		"books of 120 000 recipes with pairwise different names (two basic elements each, one in eight also a reference to an earlier recipe) and a log that uses every recipe once; csv database, csv database-resolved and csv log compared row by row with the construction",
-		fmt.Sprintf("%d books", n), n, func(i int) vBulkCase { return vBulkCase{Seed: uint64(vSeedBase)*2000003 + uint64(i)*104729 + 7, N: 120000} }, checkC13Bulk)
+		fmt.Sprintf("%d books", n), n, func(i int) vBulkCase {
+			return vBulkCase{Seed: uint64(vSeedBase)*2000003 + uint64(i)*104729 + 7, N: 120000}
+		}, checkC13Bulk)
 }
 
 func TestVerifC03Bulk(t *testing.T) {
 	n := vPick(4, 32)
 	vEnum(t, "C03", "c03.bulk",
 		"logs of 120 000 different three-segment food paths; bal shows every category path once, sorted, with the sum of what lies below it, and report quantity every food once",
-		fmt.Sprintf("%d logs", n), n, func(i int) vBulkCase { return vBulkCase{Seed: uint64(vSeedBase)*3000017 + uint64(i)*7919 + 3, N: 120000} }, checkC03Bulk)
+		fmt.Sprintf("%d logs", n), n, func(i int) vBulkCase {
+			return vBulkCase{Seed: uint64(vSeedBase)*3000017 + uint64(i)*7919 + 3, N: 120000}
+		}, checkC03Bulk)
 }
